@@ -40,7 +40,7 @@ def _deadline(seconds):
         signal.signal(signal.SIGALRM, old)
 
 
-def guarded(fn, limits=(10.0, 60.0)):
+def guarded(fn, limits=(3.0, 20.0)):
     """Run the deterministic thunk `fn`; if it does not return within limits[0] seconds run it afresh with limits[1]
     (an overloaded machine can starve a worker for seconds; only a repeated expiry counts as "did not return").
     Returns (result, hung)."""
